@@ -4,8 +4,11 @@ from props.progs import replay  # noqa
 
 GEN = 'copy'
 RULE = ("histories: build nested lists/dictionaries and objects, copy them by 令 / = / multi-declaration / element assignment / loop "
-        "variables, then interleave mutations through random names and paths (element and key assignment, 后增 前增 左移 右移, property "
-        "writes and mutating methods on objects), displaying every variable after each step; literals evaluated repeatedly in loops. "
+        "variables, then interleave mutations through random names and paths (element and key assignment, 后增 前增 左移 右移, 自增 自减 on "
+        "numbers held by a variable / stored at any depth / handed out as loop item or position, property writes and mutating methods "
+        "on objects), displaying every variable after each step; literals evaluated repeatedly (loop bodies, methods called several "
+        "times): list / dictionary literals changed after being bound, number literals changed in place where they stand (receiver of "
+        "自增/自减, literal argument of a callee that bumps its input, item of a list / dictionary literal). "
         "Non-trivial = at least one copy and one later mutation in the history.")
 ASSUMPTIONS = ["Go slice backing arrays are not modelled (the one sharing site, 合并, was repaired)",
                "method arguments and 得到 bind references in the real code; the property does not name them and generators do not mutate through them"]
